@@ -54,10 +54,16 @@ def observe(m, queries, heavy=True):
     for qi, q in queries:
         put('match%d' % qi, lambda: [sorted(x.items()) for x in q.get_mapping(m, _cython=False)])
         put('match_all%d' % qi, lambda: [sorted(x.items()) for x in q.get_mapping(m, automorphism_filter=False, _cython=False)][:50])
+        if qi < 4:   # a scoped search in between must not change what later (unscoped) searches see
+            scope = list(m)[:max(1, len(m) // 2)]
+            put('match_scoped%d' % qi, lambda: [sorted(x.items()) for x in q.get_mapping(m, searching_scope=scope, _cython=False)][:50])
     if heavy:
         put('pack', lambda: m.pack(compressed=False))
     put('labels', lambda: [(n, a.implicit_hydrogens, a.hybridization, a.in_ring, sorted(a.ring_sizes), a.stereo) for n, a in m.atoms()])
     return o
+
+
+COLD = [False]
 
 
 def normalised(m):
@@ -74,9 +80,20 @@ def normalised(m):
             o[k + '/copy'] = dg(norm((r, str(rr), [(n, a.charge, a.implicit_hydrogens) for n, a in rr.atoms()], rr.sssr, rr.atoms_rings_sizes)))
             c.flush_cache()
             o[k + '/flushed'] = dg(norm((r, str(c), [(n, a.charge, a.implicit_hydrogens) for n, a in c.atoms()], c.sssr, c.atoms_rings_sizes)))
+            # the same operation on a copy whose caches are cold (nothing read before): warm caches must not change the result
+            cold = m.copy()
+            cold.flush_cache()
+            COLD[0] = True
+            try:
+                r2 = f(cold)
+            finally:
+                COLD[0] = False
+            o[k + '/cold'] = dg(norm((r2, str(cold), [(n, a.charge, a.implicit_hydrogens) for n, a in cold.atoms()], cold.sssr, cold.atoms_rings_sizes)))
         except Exception as e:
-            o[k] = o[k + '/copy'] = o[k + '/flushed'] = 'EXC ' + type(e).__name__
+            o[k] = o[k + '/copy'] = o[k + '/flushed'] = o[k + '/cold'] = 'EXC ' + type(e).__name__
     def pre(c):
+        if COLD[0]:
+            return
         c.sssr
         c.atoms_order
         str(c)
@@ -111,6 +128,8 @@ def main():
     items += [('group:' + a, a) for a, b in inputs.test_groups_pairs()]
     items += [('metal:' + s, s) for s in inputs.organometallics()]
     items += [('stereo:' + s, s) for s in inputs.ring_stereo_family()]
+    items += [('azolium:' + s, s) for s in ('Cc1cc[nH][nH+]1', 'Cc1[nH+]c(CC)[nH]c1', 'c1c[nH+]c[nH]1', 'Cc1c[nH]c[nH+]1', 'CCn1cc[n+](C)c1', 'Cc1[nH]cc[nH+]1', 'Cc1[nH+]cc[nH]1', 'CC1=CN2C=CNC2=C1',
+                                              'CC(=O)C1=CN2C=CSC2=C1', 'C[n+]1ccn(C)c1C', 'Cc1c[nH+]c(C)[nH]1')]
     small = []
     for i, spec in enumerate(M.scope(5, 1)):
         if i % (3 if stride <= 8 else 6) == 0:
